@@ -5,7 +5,7 @@ import asyncio
 
 from hypothesis import strategies as st
 
-from .. import aio, traffic, wire
+from .. import aio, canboat, gen, traffic, wire
 from ..common import Ctx, pmap
 
 LEVEL = "exploration"
@@ -68,6 +68,16 @@ def streams(draw, kind):
             g = g.replace(b"\n", b" ").replace(b"\r", b" ")
             packets.append(g + b"\r\n")
             kinds.append("malformed")
+    if kind == "actisense":
+        # the format carries whole messages: fast-packet payloads (up to 223 bytes, lines of up to ~500 characters) as ONE line each
+        db = canboat.db()
+        for _ in range(draw(st.integers(0, 3))):
+            d = db.by_key[draw(st.sampled_from(traffic.FAST_KEYS))]
+            p, nb, _ = draw(gen.payloads(d, mode="accepted", extra_bytes=False))
+            line = wire.actisense(d.pgn, draw(st.sampled_from([1, 2, 9])), 255, 3, p.to_bytes(nb, "little")[:223])
+            pos = draw(st.integers(0, len(packets)))
+            packets.insert(pos, (line + "\r\n").encode())
+            kinds.insert(pos, "valid")
     if kind == "waveshare":
         # serial specialities that stay inside the property's domain: packets that contain AA 55 after the header, packets whose
         # last byte (checksum) is 0xAA, and marker-free stray bytes between packets (which lose nothing, C20)
